@@ -20,6 +20,7 @@ import (
 	"runtime"
 	"runtime/debug"
 	"strings"
+	"sync/atomic"
 	"time"
 
 	"github.com/PelicanPlatform/classad/classad"
@@ -451,7 +452,7 @@ func c13SuiteHandshake(tier string) []c13Input {
 		return func() (int, error) {
 			cc := baseCfg(security.SecurityPreferred, security.SecurityOptional, methods, []security.CryptoMethod{security.CryptoAES}, false)
 			cc.Command = 5
-			r := hsRun(hsOpts{ClientCfg: cc, Watchdog: 15 * time.Second, ServerScript: func(e *netsim.End) error {
+			r := hsRun(hsOpts{ClientCfg: cc, Watchdog: 120 * time.Second, ServerScript: func(e *netsim.End) error {
 				p := &peerConn{end: e}
 				if _, err := p.recvMsg(); err != nil {
 					return err
@@ -471,7 +472,7 @@ func c13SuiteHandshake(tier string) []c13Input {
 	serverRun := func(script func(p *peerConn)) func() (int, error) {
 		return func() (int, error) {
 			sc := baseCfg(security.SecurityPreferred, security.SecurityOptional, []security.AuthMethod{mCTB, mTOK, security.AuthSSL}, []security.CryptoMethod{security.CryptoAES}, true)
-			r := hsRun(hsOpts{ServerCfg: sc, Watchdog: 15 * time.Second, ClientScript: func(e *netsim.End) error {
+			r := hsRun(hsOpts{ServerCfg: sc, Watchdog: 120 * time.Second, ClientScript: func(e *netsim.End) error {
 				script(&peerConn{end: e})
 				return fmt.Errorf("script done")
 			}})
@@ -703,7 +704,7 @@ func C13Worker(spec string) {
 				fmt.Fprintf(out, "VIOL %d cap a value larger than the cap (%d) was accepted by the capped reader\n", i, in.cap)
 			}
 			if err != nil && err.Error() == "HANG" {
-				fmt.Fprintf(out, "VIOL %d hang endpoint did not return within 15 s\n", i)
+				fmt.Fprintf(out, "VIOL %d hang endpoint did not return within 120 s\n", i)
 			}
 			oc := "error"
 			if err == nil {
@@ -730,7 +731,8 @@ func c13RunChunk(suite, tier string, lo, hi int, entry string, inputs []c13Input
 			res.Violate("C13/harness", "cannot start worker: %v", err)
 			return res
 		}
-		cur := -1
+		var curA atomic.Int64
+		curA.Store(-1)
 		done := make(chan struct{})
 		progress := make(chan int, 1024)
 		go func() {
@@ -744,7 +746,7 @@ func c13RunChunk(suite, tier string, lo, hi int, entry string, inputs []c13Input
 				}
 				switch f[0] {
 				case "START":
-					cur = idx
+					curA.Store(int64(idx))
 					progress <- idx
 				case "SKIP":
 					res.Skipped++
@@ -755,7 +757,7 @@ func c13RunChunk(suite, tier string, lo, hi int, entry string, inputs []c13Input
 					if len(f) >= 3 {
 						res.Outcome(strings.SplitN(inputs[idx].entry, ".", 2)[0] + "-" + f[2])
 					}
-					cur = -1
+					curA.Store(-1)
 					lo = idx + 1
 				case "VIOL":
 					in := inputs[idx]
@@ -764,29 +766,48 @@ func c13RunChunk(suite, tier string, lo, hi int, entry string, inputs []c13Input
 			}
 			close(done)
 		}()
+		// No-progress watchdog. Wall-clock time alone would misfire on a loaded
+		// machine (a descheduled worker makes no progress either), so an input counts
+		// as spinning when the worker has burnt 15 s of CPU on it, or has been on it for
+		// 5 minutes of wall-clock time (blocked for good). Between inputs (suite
+		// generation at start-up) only a 20-minute limit applies.
 		killed := false
-		watch := time.NewTimer(15 * time.Second)
+		tick := time.NewTicker(time.Second)
+		inFlight := false
+		startWall, startCPU := time.Now(), procCPU(cmd.Process.Pid)
 	wait:
 		for {
 			select {
 			case <-done:
 				break wait
 			case <-progress:
-				if !watch.Stop() {
-					select {
-					case <-watch.C:
-					default:
+				inFlight = true
+				startWall, startCPU = time.Now(), procCPU(cmd.Process.Pid)
+			case <-tick.C:
+				if curA.Load() < 0 {
+					if inFlight {
+						inFlight = false
+						startWall = time.Now()
 					}
+					if time.Since(startWall) > 20*time.Minute {
+						killed = true
+						_ = cmd.Process.Kill()
+						<-done
+						break wait
+					}
+					continue
 				}
-				watch.Reset(15 * time.Second)
-			case <-watch.C:
-				killed = true
-				_ = cmd.Process.Kill()
-				<-done
-				break wait
+				if procCPU(cmd.Process.Pid)-startCPU >= 15 || time.Since(startWall) > 5*time.Minute {
+					killed = true
+					_ = cmd.Process.Kill()
+					<-done
+					break wait
+				}
 			}
 		}
+		tick.Stop()
 		err := cmd.Wait()
+		cur := int(curA.Load())
 		if cur >= 0 {
 			// the worker died (or was killed) while input `cur` was in flight
 			in := inputs[cur]
@@ -821,6 +842,27 @@ func c13RunChunk(suite, tier string, lo, hi int, entry string, inputs []c13Input
 	return res
 }
 
+// procCPU: user+system CPU seconds consumed so far by process pid (0 if unknown).
+func procCPU(pid int) float64 {
+	b, err := os.ReadFile(fmt.Sprintf("/proc/%d/stat", pid))
+	if err != nil {
+		return 0
+	}
+	// fields after the ")" that closes the command name; utime and stime are the 12th and 13th of those
+	i := bytes.LastIndexByte(b, ')')
+	if i < 0 {
+		return 0
+	}
+	f := strings.Fields(string(b[i+1:]))
+	if len(f) < 13 {
+		return 0
+	}
+	var ut, st float64
+	fmt.Sscanf(f[11], "%f", &ut)
+	fmt.Sscanf(f[12], "%f", &st)
+	return (ut + st) / 100
+}
+
 func tail(s string) string {
 	if len(s) > 600 {
 		return s[len(s)-600:]
@@ -831,7 +873,7 @@ func tail(s string) string {
 func C13Plan() *vlib.Plan {
 	p := &vlib.Plan{
 		Property: "C13", Level: "exploration",
-		Rule:   "Bounded structure-aware exhaustion of every decoder entry point: (stream) 5 receive entry points x {plain, AES-GCM} x all 1-byte strings, all strings of 2-3 (thorough 4) bytes over a 16-value header alphabet, end flag x length boundary product x {no, partial, full body}, runs of 10 / 10^3 / 2*10^5 empty and 1-byte partial frames; (message) 11 typed/ClassAd readers + GetBytes(n) for 17 boundary n, x {one frame, 1-byte frames, missing end} x both modes x payloads = boundary integer (17 values from MinInt64 to MaxInt64) followed by 9 string shapes (empty, unterminated, marker, cap-1/cap/cap+1/10xcap, 100 KB), every truncation of a valid ad, count field over the catalogue, secret marker followed by 10 B..900 KB, ads of 2/5/50 attributes (plain or marker+secret, both string forms) each below the cap but summing above it, 20000 tiny expressions; (handshake) real ClientHandshake / ServerHandshake against scripted peers that put every catalogue integer into every length/count/status field they read (server ad, method reply, 5 exchangeKey fields, post-auth ad, SSL message length, FS result, 6 TOKEN step-2 fields; client ad, command, bitmask, CLAIMTOBE, 3 TOKEN step-1 fields, resumption request) and 4 KB..900 KB oversize ads; (text) all strings <= 5 (thorough 6) over 12-symbol alphabets through 8 parsers, crypto-state blob length fields. Oracle per input: no panic (recovered in the worker), no abort (out-of-memory under ulimit -v 6 GiB, stack overflow under a 16 MiB stack, attributed by the parent to the input in flight), no spin (15 s without progress), TotalAlloc <= 256 x (bytes served + cap) + 4 MiB, capped readers consume <= cap + one frame. Non-trivial = the decoder was invoked on the input (distinct inputs by construction).",
+		Rule:   "Bounded structure-aware exhaustion of every decoder entry point: (stream) 5 receive entry points x {plain, AES-GCM} x all 1-byte strings, all strings of 2-3 (thorough 4) bytes over a 16-value header alphabet, end flag x length boundary product x {no, partial, full body}, runs of 10 / 10^3 / 2*10^5 empty and 1-byte partial frames; (message) 11 typed/ClassAd readers + GetBytes(n) for 17 boundary n, x {one frame, 1-byte frames, missing end} x both modes x payloads = boundary integer (17 values from MinInt64 to MaxInt64) followed by 9 string shapes (empty, unterminated, marker, cap-1/cap/cap+1/10xcap, 100 KB), every truncation of a valid ad, count field over the catalogue, secret marker followed by 10 B..900 KB, ads of 2/5/50 attributes (plain or marker+secret, both string forms) each below the cap but summing above it, 20000 tiny expressions; (handshake) real ClientHandshake / ServerHandshake against scripted peers that put every catalogue integer into every length/count/status field they read (server ad, method reply, 5 exchangeKey fields, post-auth ad, SSL message length, FS result, 6 TOKEN step-2 fields; client ad, command, bitmask, CLAIMTOBE, 3 TOKEN step-1 fields, resumption request) and 4 KB..900 KB oversize ads; (text) all strings <= 5 (thorough 6) over 12-symbol alphabets through 8 parsers, crypto-state blob length fields. Oracle per input: no panic (recovered in the worker), no abort (out-of-memory under ulimit -v 6 GiB, stack overflow under a 16 MiB stack, attributed by the parent to the input in flight), no spin (15 s of CPU, or 5 min of wall-clock time, on one input), TotalAlloc <= 256 x (bytes served + cap) + 4 MiB, capped readers consume <= cap + one frame. Non-trivial = the decoder was invoked on the input (distinct inputs by construction).",
 		Assume: []string{"inputs outside the generated grammar are not covered (the property's fuzzing wording is claimed in this bounded form)", "memory judged by Go's TotalAlloc; SCITOKENS/KERBEROS readers not reached"},
 	}
 	p.Gen = func(tier string, yield func(vlib.Case)) {
